@@ -219,6 +219,10 @@ impl Prop for PExpr {
         let _ = std::fs::remove_file(&log);
         std::env::set_var("VREC_LOG", &log);
         let mut args: Vec<String> = vec![lay[0].0.to_string_lossy().into_owned()];
+        if input.get("split").and_then(|x| x.as_bool()).unwrap_or(false) {
+            // the entries directly beneath the top directory as starting points, in order
+            args = lay.iter().filter(|(p, _)| p.components().count() == 2).map(|(p, _)| p.to_string_lossy().into_owned()).collect();
+        }
         args.extend(expr_args(&toks, form, destructive, &vrec_path().to_string_lossy()));
         let errf = dir.parent().unwrap().join("stderr.txt");
         let r = run_find_inproc(&dir, &args, None, &errf);
@@ -307,7 +311,11 @@ impl Prop for PExpr {
         if !is_chain(&files) || rng.chance(1, 2) {
             toks.insert(0, "opt".into());
         }
-        json!({"toks": toks, "files": files, "form": rng.below(1000)})
+        let mut v = json!({"toks": toks, "files": files, "form": rng.below(1000)});
+        if files[0]["sub"].as_u64().unwrap_or(0) >= 1 && rng.chance(1, 4) {
+            v["split"] = json!(true);
+        }
+        v
     }
 
     fn same(&self, exp: &Value, obs: &Value) -> bool {
